@@ -112,14 +112,23 @@ def gen_dump(rng):
 def table_states(dump):
     """Own replay of the thread map and the map-updating records: state[k] = (threads_pids, pids_names) after event k;
     also which events are map-updating."""
+    states, updating, _ = walk_tables(dump, True)
+    return states, updating
+
+
+def walk_tables(dump, keep_states):
+    """The replay itself.  Returns (states or None, updating, texts) where texts[k] = the process text of the emitting
+    thread of event k (before, after) the event is applied - enough to judge lines of dumps too large to keep a copy
+    of the tables per event."""
     codes = ev.bundled_codes()
     tp, pn = wire.threadmap_model(dump['entries'])
     last_new, last_exec = {}, {}
     open_samplers = {}
-    states, updating = [], []
+    states, updating, texts = [], [], []
     for e in dump['events']:
         name = codes.get(e.eventid)
         upd = False
+        before_text = proc_text(tp, pn, e.tid)
         single = e.func_qualifier in (0, 3)
         if name == 'TRACE_DATA_NEWTHREAD' and single:
             tp[e.values[0]] = e.values[1]
@@ -151,9 +160,11 @@ def table_states(dump):
             if s and s['what'] & 1 and s['thd']:
                 tp[s['thd'][0]] = s['thd'][1]
             upd = True
-        states.append((dict(tp), dict(pn)))
+        if keep_states:
+            states.append((dict(tp), dict(pn)))
         updating.append(upd)
-    return states, updating
+        texts.append((before_text, proc_text(tp, pn, e.tid)))
+    return (states if keep_states else None), updating, texts
 
 
 def proc_text(tp, pn, tid):
@@ -357,6 +368,52 @@ def check_callstack_columns(res, dump):
             return
 
 
+def long_dump(res, ctx, rng, n_workers):
+    """Scale ladder: a long capture in which thousands of short-lived threads are created, work and terminate while a
+    few long-lived declared threads keep emitting; every line of every thread names the process the dump declares."""
+    main = [11, 12, 13]
+    entries = [(tid, 100 * (i + 1), b'daemon%d' % i, b'') for i, tid in enumerate(main)]
+    items = []
+    for tid in main:      # named by terminate records early on (reaper-style records do not declare anything)
+        items.append((13, H.A('TRACE_DATA_THREAD_TERMINATE', H.NONE, (tid, 0, 0, 0))))
+        items += [(tid, a) for a in H.syscall('BSC_getpid', (0, 0, 0, 0), (0, 100, 0, 0))]
+    for w in range(n_workers):
+        wt = 0x5000 + w
+        pid = rng.choice((100, 200, 300)) if w % 3 else 5000 + w
+        items += [(11, a) for a in H.newthread_pair(wt, pid, b'worker%d' % (w % 50) if pid > 300 else b'daemon%d' % (pid // 100 - 1))]
+        items += [(wt, a) for a in H.syscall(rng.choice(('BSC_getpid', 'BSC_read')), (3, 0x1000, 8, 0), (0, 8, 0, 0))]
+        items.append((rng.choice((wt, 12)), H.A('TRACE_DATA_THREAD_TERMINATE', H.NONE, (wt, 0, 0, 0))))
+        if w % 97 == 0:
+            items += [(rng.choice(main), a) for a in H.syscall('BSC_getpid', (0, 0, 0, 0), (0, 100, 0, 0))]
+    for tid in main + [0x5000, 0x5001, 0x5000 + n_workers // 2]:      # the earliest threads emit again at the very end
+        items += [(tid, a) for a in H.syscall('BSC_getpid', (0, 0, 0, 0), (0, 100, 0, 0))]
+    events = H.materialize(items, t0=0x100000001)
+    dump = {'data': wire.v2_file(entries, 8, gen.events_to_records(events)), 'events': events, 'entries': entries}
+    case = {'file': dump['data'], 'workers': n_workers}
+    _, updating, texts = walk_tables(dump, False)
+    try:
+        traces = list(front({}).traces(io.BytesIO(dump['data'])))
+        lines = list(front({'show_process': True}).formatted_traces(io.BytesIO(dump['data'])))
+    except Exception as x:
+        res.violation(f'c14-raises-{core.exc_name(x)}', f'long dump ({n_workers} short-lived threads): {x!r}', case)
+        return
+    if len(traces) != len(lines):
+        res.violation('c14-line-count', f'long dump: {len(lines)} lines for {len(traces)} traces', case)
+        return
+    index = {e.timestamp: k for k, e in enumerate(events)}
+    for t, line in zip(traces, lines):
+        k = index[t.ktraces[-1].timestamp]
+        before, after = texts[k]
+        res.count('long_dump_lines_checked')
+        ok = {f'{after:<34}'} | ({f'{before:<34}'} if updating[k] else set())
+        if not any(line.startswith(o) for o in ok):
+            res.violation('c14-process-column', f'long dump ({n_workers} short-lived threads), trace {str(t)!r} of thread '
+                          f'{t.ktraces[0].tid} (event {k} of {len(events)}): line {line[:50]!r}, the dump declares '
+                          f'{sorted(ok)} at that point', case)
+            return
+    res.count('long_dumps')
+
+
 def check_logs(res, rng):
     """Log lines: colour never changes the text; a record that names its process and thread is shown under the
     process the dump declares for that thread (the record itself declares it)."""
@@ -416,6 +473,8 @@ def run(ctx):
         check_colour(res, dump)
         res.count('dumps')
     if ctx.shard == 0:
+        for n in ctx.pick((2600,), (2600, 9000, 40000)):
+            long_dump(res, ctx, rng, n)
         d = gen_dump(core.Ctx('C14', ctx.tier, ctx.seed).rng)
         p = front({'show_timestamp': True, 'show_tid': True, 'show_process': True})
         res.sample({'lines': list(p.formatted_traces(io.BytesIO(d['data'])))[:4]})
@@ -431,6 +490,7 @@ def run(ctx):
     res.require('colour_comparisons', 20)
     res.require('reused_object_requests', 20)
     res.require('callstack_headers_checked', 10)
+    res.require('long_dumps', 1)
     res.require('callstacks_of_threads_remapped_or_renamed_earlier', 1)
     res.require('callstacks_of_threads_renamed_under_the_same_pid', 1)
     return res
